@@ -4,16 +4,17 @@
 #include "hmain.hpp"
 #include "bklib.hpp"
 #include <lagrangehalfc_arithmetic.h>
+#include <sys/wait.h>
 #include <thread>
 #include <atomic>
 #include <chrono>
 using namespace vf;
 
 static const int N = 1024, NIN = 8;
-enum { OP_BOOT = 11, OP_FFTPROD = 12, OP_LAGR = 13, OP_CHURN = 14, OP_YIELD = 15, OP_RESPAWN = 16, OP_WOKS = 17 };
-static const char *opname(int k) { return k <= 10 ? GATES[k].name : k == OP_BOOT ? "bootstrap_FFT" : k == OP_FFTPROD ? "fft-product" : k == OP_LAGR ? "lagrange-ops" : k == OP_CHURN ? "heap-churn" : k == OP_YIELD ? "yield" : k == OP_RESPAWN ? "respawn" : "bootstrap_woKS_FFT"; }
+enum { OP_BOOT = 11, OP_FFTPROD = 12, OP_LAGR = 13, OP_CHURN = 14, OP_YIELD = 15, OP_RESPAWN = 16, OP_WOKS = 17, OP_BOOTK = 18 };
+static const char *opname(int k) { return k <= 10 ? GATES[k].name : k == OP_BOOT ? "bootstrap_FFT" : k == OP_FFTPROD ? "fft-product" : k == OP_LAGR ? "lagrange-ops" : k == OP_CHURN ? "heap-churn" : k == OP_YIELD ? "yield" : k == OP_RESPAWN ? "respawn" : k == OP_BOOTK ? "bootstrap_FFT-under-another-key-set" : "bootstrap_woKS_FFT"; }
 
-struct Shared { KeySet *K; LweSample *in; };
+struct Shared { KeySet *K; LweSample *in; BKey *extra[2]; };
 
 // executes one operation; returns a hash of its output bytes (0 for ops without output)
 static uint64_t do_op(const Shared &S, const int64_t *op) {
@@ -34,6 +35,17 @@ static uint64_t do_op(const Shared &S, const int64_t *op) {
         else tfhe_bootstrap_woKS_FFT(r, bk, (int32_t)(op[2] * 2654435761u), S.in + op[1] % NIN);
         uint64_t h = hash_words(r->a, (size_t)nn * 4, 5) ^ (uint64_t)(uint32_t)r->b;
         delete_LweSample(r);
+        return h;
+    }
+    if (kind == OP_BOOTK) { // bootstrapping (with key switch) under one of two other key sets with different dimensions and key-switch layouts
+        BKey *B = S.extra[op[1] % 2];
+        LweSample *x = new_LweSample(B->Pin), *r = new_LweSample(B->Pin);
+        SplitMix rr((uint64_t)op[2]);
+        for (int i = 0; i < B->cfg.n; i++) x->a[i] = rr.i32();
+        x->b = rr.i32(); x->current_variance = 0;
+        tfhe_bootstrap_FFT(r, B->bkFFT, (int32_t)(op[3] * 2654435761u + 12345), x);
+        uint64_t h = hash_words(r->a, (size_t)B->cfg.n * 4, 13) ^ (uint64_t)(uint32_t)r->b;
+        delete_LweSample(x); delete_LweSample(r);
         return h;
     }
     if (kind == OP_FFTPROD) { // product of thread-private polynomials, unrelated to the key
@@ -65,15 +77,31 @@ static uint64_t do_op(const Shared &S, const int64_t *op) {
     if (kind == OP_YIELD) { if (op[1] % 3 == 0) std::this_thread::yield(); else std::this_thread::sleep_for(std::chrono::microseconds(op[1] % 2000)); return 0; }
     return 0;
 }
-static bool has_output(int kind) { return kind <= 13 || kind == OP_WOKS; }
+static bool has_output(int kind) { return kind <= 13 || kind == OP_WOKS || kind == OP_BOOTK; }
 
 static std::map<std::vector<int64_t>, uint64_t> g_ref;
+// Reference = the operation alone in a *fresh process image* (forked from a parent that has never evaluated anything) on a fresh thread:
+// neither thread-local state, nor process-wide statics, nor heap history of earlier evaluations can reach it.
 static uint64_t reference(const Shared &S, const std::vector<int64_t> &op) {
     auto it = g_ref.find(op);
     if (it != g_ref.end()) return it->second;
     uint64_t h = 0;
-    std::thread t([&]() { h = do_op(S, op.data()); }); // a fresh thread: fresh thread-local FFT processor, no history
-    t.join();
+    int fd[2];
+    if (pipe(fd)) { perror("pipe"); exit(3); }
+    fflush(nullptr);
+    pid_t pid = fork();
+    if (pid == 0) {
+        close(fd[0]);
+        uint64_t hh = 0;
+        std::thread t([&]() { hh = do_op(S, op.data()); });
+        t.join();
+        (void)!write(fd[1], &hh, 8);
+        _exit(0);
+    }
+    close(fd[1]);
+    if (read(fd[0], &h, 8) != 8) h = 0xdeadbeefdeadbeefull;
+    close(fd[0]);
+    int st; waitpid(pid, &st, 0);
     g_ref[op] = h;
     return h;
 }
@@ -89,6 +117,11 @@ static std::string run_case(const J &c, std::string &sig) {
     S.in = new_gate_bootstrapping_ciphertext_array(NIN, KS->params);
     seed_lib((uint64_t)c["seed"].i(), 0xC06u);
     for (int i = 0; i < NIN; i++) bootsSymEncrypt(S.in + i, (int)((c["seed"].i() >> i) & 1), KS->sk);
+    // inputs 6 and 7 are crafted so that AND(6,7) has a b that rounds to exactly 0 (and OR(6,7) to N/2): boundary paths of the rotation
+    S.in[7].b = (int32_t)(MU8 - (uint32_t)S.in[6].b);
+    BCfg c1; c1.n = 16; c1.k = 1; c1.l = 3; c1.Bgbit = 7; c1.t = 15; c1.bb = 1; c1.a_in = 1e-9; c1.a_bk = 1e-9; c1.seed = keyseed + 7;
+    BCfg c2; c2.n = 10; c2.k = 1; c2.l = 2; c2.Bgbit = 10; c2.t = 4; c2.bb = 4; c2.a_in = 1e-9; c2.a_bk = 1e-9; c2.seed = keyseed + 8;
+    S.extra[0] = &get_bkey(c1, 2); S.extra[1] = &get_bkey(c2, 2);
     g_ref.clear();
     const J &threads = c["threads"];
     const int T = (int)threads.size();
@@ -97,6 +130,28 @@ static std::string run_case(const J &c, std::string &sig) {
     for (int t = 0; t < T; t++) for (auto &o : threads[t]["ops"].av) { ops[t].push_back(o.ivec()); ops[t].back().resize(4, 0); }
     for (int t = 0; t < T; t++) for (auto &o : ops[t]) if (has_output((int)o[0])) reference(S, o);
     std::vector<std::vector<uint64_t>> out(T);
+    int wfd[2];
+    if (pipe(wfd)) { perror("pipe"); exit(3); }
+    fflush(nullptr);
+    pid_t wpid = fork();
+    if (wpid != 0) { // parent: collect the child's outputs
+        close(wfd[1]);
+        std::string buf; char tmp[4096]; ssize_t nr;
+        while ((nr = read(wfd[0], tmp, sizeof tmp)) > 0) buf.append(tmp, nr);
+        close(wfd[0]);
+        int st = 0; waitpid(wpid, &st, 0);
+        if (WIFSIGNALED(st) && WTERMSIG(st) == SIGALRM) { delete_gate_bootstrapping_ciphertext_array(NIN, S.in); return "INCONCLUSIVE"; }
+        if (!WIFEXITED(st) || WEXITSTATUS(st) != 0) {
+            delete_gate_bootstrapping_ciphertext_array(NIN, S.in);
+            char b2[160]; snprintf(b2, sizeof b2, "workload process %s %d", WIFSIGNALED(st) ? "killed by signal" : "exited with status", WIFSIGNALED(st) ? WTERMSIG(st) : WEXITSTATUS(st));
+            sig = WIFEXITED(st) && WEXITSTATUS(st) == 66 ? "c06/tsan-report" : "c06/crash";
+            return std::string(b2);
+        }
+        size_t pos = 0;
+        for (int t = 0; t < T; t++) { uint64_t cnt = 0; if (pos + 8 <= buf.size()) memcpy(&cnt, buf.data() + pos, 8); pos += 8; for (uint64_t q = 0; q < cnt && pos + 8 <= buf.size(); q++) { uint64_t h; memcpy(&h, buf.data() + pos, 8); pos += 8; out[t].push_back(h); } }
+    } else {
+    close(wfd[0]);
+    alarm(240); // a workload that does not finish is inconclusive (time is never an oracle): SIGALRM ends the child
     std::atomic<int> ready(0); std::atomic<bool> go(false);
     std::atomic<bool> stop_aux(false);
     std::thread aux;
@@ -126,6 +181,10 @@ static std::string run_case(const J &c, std::string &sig) {
     go = true;
     for (auto &x : th) x.join();
     if (aux.joinable()) { stop_aux = true; aux.join(); }
+    for (int t = 0; t < T; t++) { uint64_t cnt = out[t].size(); (void)!write(wfd[1], &cnt, 8); if (cnt) (void)!write(wfd[1], out[t].data(), cnt * 8); }
+    close(wfd[1]);
+    exit(0); // normal exit so that ThreadSanitizer can report (exitcode=66)
+    }
     std::string why;
     char buf[300];
     for (int t = 0; t < T && why.empty(); t++) {
@@ -147,10 +206,10 @@ static std::string run_case(const J &c, std::string &sig) {
 int main(int argc, char **argv) {
     Args A(argc, argv);
     Harness H(A, "c06");
-    H.run_case = run_case;
+    H.run_case = [&](const J &c, std::string &sig) { std::string w = run_case(c, sig); if (w == "INCONCLUSIVE") { H.R.cls("inconclusive_workload_timeout"); return std::string(); } return w; };
     H.nontrivial = [](const J &c) {
         int evalthreads = 0; bool hist = false;
-        for (auto &t : c["threads"].av) { int outs = 0, idx = 0; for (auto &o : t["ops"].av) { if (o[0].i() <= 11 || o[0].i() == OP_WOKS) { outs++; if (idx > 0) hist = true; } idx++; } if (outs) evalthreads++; }
+        for (auto &t : c["threads"].av) { int outs = 0, idx = 0; for (auto &o : t["ops"].av) { if (o[0].i() <= 11 || o[0].i() == OP_WOKS || o[0].i() == OP_BOOTK) { outs++; if (idx > 0) hist = true; } idx++; } if (outs) evalthreads++; }
         return evalthreads >= 2 || hist;
     };
     H.classify = [](const J &c) { int T = (int)c["threads"].size(); return std::string("T") + (T == 1 ? "1" : T <= 4 ? "2-4" : T <= 16 ? "5-16" : "17-64") + (c["key_on_thread"].i() ? "_keyFromExitedThread" : "") + (c["keygen_thread"].i() ? "_withKeygenThread" : ""); };
@@ -163,7 +222,7 @@ int main(int argc, char **argv) {
         if (T > maxT) T = maxT;
         c.set("lambda", lambda).set("keyseed", kseed).set("seed", *genSeed()).set("key_on_thread", *rc::gen::weightedElement<int>({{3, 0}, {1, 1}})).set("keygen_thread", *rc::gen::weightedElement<int>({{3, 0}, {1, 1}}));
         J threads = J::array();
-        auto opgen = rc::gen::map(rc::gen::tuple(rc::gen::weightedElement<int>({{6, 0}, {1, 1}, {2, 2}, {3, 3}, {1, 4}, {1, 5}, {1, 6}, {1, 7}, {1, 8}, {1, 9}, {4, 10}, {3, OP_BOOT}, {2, OP_WOKS}, {4, OP_FFTPROD}, {3, OP_LAGR}, {4, OP_CHURN}, {2, OP_YIELD}, {2, OP_RESPAWN}}),
+        auto opgen = rc::gen::map(rc::gen::tuple(rc::gen::weightedElement<int>({{6, 0}, {1, 1}, {2, 2}, {3, 3}, {1, 4}, {1, 5}, {1, 6}, {1, 7}, {1, 8}, {1, 9}, {4, 10}, {3, OP_BOOT}, {2, OP_WOKS}, {4, OP_BOOTK}, {4, OP_FFTPROD}, {3, OP_LAGR}, {4, OP_CHURN}, {2, OP_YIELD}, {2, OP_RESPAWN}}),
                                                  rng<int>(0, 100000), rng<int>(0, 7), rng<int>(0, 7)),
                                   [](std::tuple<int, int, int, int> t) { return std::vector<int64_t>{std::get<0>(t), std::get<1>(t), std::get<2>(t), std::get<3>(t)}; });
         int budget = T <= 4 ? maxops : T <= 16 ? std::max(2, maxops - 1) : 2;
